@@ -18,4 +18,23 @@ theorem rawfd_site_not_covered : Site.listener_Close_rawfd ∉ coveredSites := b
 /-- the close added by the fix of F1 (`CreateListener`: `ln.Close()` on a `ConvertListener` error) is reached -/
 theorem createListener_site_covered : Site.createListener_ln ∈ coveredSites := by decide +kernel
 
+/-- **The decision to call `syscall.Close` is taken by ONE atomic read-modify-write.**  `(*netFD).Close` starts with
+`if atomic.AddUint32(&c.closed, 1) != 1 { return nil }`, and that call is the only access to the field `closed` in the
+whole package.  This is what `NetFD.close` of the model executes as one step (`closed + 1`, compare with 1) and what
+makes concurrent `Close` calls on the same `*netFD` – the `net.Conn` that `Listener.Accept` returns, the close
+callbacks of a connection, `socket()`'s error path – serialise: exactly one caller sees 1 and goes on to `close(2)`.
+A check-then-act on the same field (atomic load, then atomic store) keeps every access atomic, so it is not a data
+race (C19 has nothing to say about it), but two overlapping callers both pass the test and the descriptor is closed
+twice: `C15_once` would be claimed of a model that no longer mirrors the code. -/
+theorem netFD_close_decided_by_one_rmw :
+    Netpoll.Gen.netFDClosedAccesses = [("netFD.Close", "atomic.AddUint32(&c.closed, 1)")] ∧
+    Netpoll.Gen.netFDCloseFirstStmt = "if atomic.AddUint32(&c.closed, 1) != 1 { return nil }" := by decide
+
+/-- the model's `netFD.Close` takes that decision in one step: the first call (counter 0) is the only one that
+closes or hands over, whatever `detaching` says; every later call changes nothing but the counter -/
+theorem model_close_is_one_step (c : NetFD) (h : c.closed ≠ 0) :
+    c.close = M.ret { c with closed := c.closed + 1 } := by
+  have : (c.closed + 1 != 1) = true := by simp [h]
+  simp only [NetFD.close, this, if_true]; rfl
+
 end Netpoll.Tie.Fd
